@@ -140,7 +140,7 @@ def run_verus_unit(spec, prop, outdir):
 # Kani side
 # ---------------------------------------------------------------------------------------------------------------
 def kani_harnesses_for(prop, tier):
-    hs = [h for h in kani_crate.parse_harnesses() if prop in kani_crate.props_of(h)]
+    hs = [h for h in kani_crate.parse_harnesses() if prop in kani_crate.props_of(h) and h['tier'] in ('quick', 'thorough')]
     if tier == 'quick':
         hs = [h for h in hs if h['tier'] == 'quick']
     only = os.environ.get('VERIF_ONLY')
